@@ -1,11 +1,22 @@
 ------------------------------ MODULE SoyDataMC ------------------------------
 (***************************************************************************)
-(* M1 for C20: the conversion laws over ALL abstract Go values of depth    *)
-(* <= 2 drawn from the bounded pools of SoyData, under every setting of    *)
-(* the struct options.  One initial state per (value, options); every      *)
-(* invariant is a law of the property.  A violated law prints the case as  *)
-(* JSON (<<"CEX", law, json>>) so that the harness can replay it on the    *)
-(* real code.                                                              *)
+(* C20, conversion.  One initial state per (abstract Go value g of depth   *)
+(* <= 2 from the bounded pools of SoyData, struct options o).              *)
+(*                                                                         *)
+(* M1: every invariant Inv* is a law of the property, checked on the       *)
+(* model over the whole family.  A violated law prints the case            *)
+(* ("CEX <json>") so that the harness can replay it on the real code.      *)
+(* With a deviation switched on (Dev # {}) arrays are left out of the      *)
+(* family: the real converter rejects them, and a counterexample should be *)
+(* replayable.                                                             *)
+(*                                                                         *)
+(* M2: the always-true invariant Emit prints each case as one JSON line:   *)
+(* the descriptor g from which the harness constructs the real Go value,   *)
+(* the options, the Soy value the conversion must yield (v: reference      *)
+(* reading, alts: the other acceptable readings), its truthiness and text, *)
+(* and (default options only) rend = what Tofu.Render must make of it: the *)
+(* text of {$k} for every printable top-level key, or an error if the      *)
+(* result is not a map.                                                    *)
 (***************************************************************************)
 EXTENDS SoyData, Json
 
@@ -22,7 +33,8 @@ VARIABLES g, o
 
 Opts == MainOpts \cup TimeOpts
 
-Init == g \in PoolPart(Size, Part) /\ o \in (IF HasTime(g) THEN Opts ELSE MainOpts)
+Init == /\ g \in {x \in PoolPart(Size, Part) : Dev = {} \/ ~HasArray(x)}
+        /\ o \in (IF HasTime(g) THEN Opts ELSE MainOpts)
 Next == UNCHANGED <<g, o>>
 
 Cex(law) == PrintT("CEX " \o ToJson([law |-> law, g |-> g, o |-> o]))
@@ -37,4 +49,30 @@ InvValueLaws  == Check("InvValueLaws", ValueLaws(g, o))
 \* the readings differ only where the statement leaves a choice
 InvReadings   == Check("InvReadings",
                    (~HasEmb(g) /\ ~HasNilMap(g)) => Acceptable(g, o) = {Convert(g, o, Rd0)})
+
+-----------------------------------------------------------------------------
+\* M2 export
+
+IdentChars == "abcdefghijklmnopqrstuvwxyzABCDEFGHIJKLMNOPQRSTUVWXYZ0123456789_"
+Digits == "0123456789"
+InStr(ch, s) == \E i \in 1..Len(s) : SubSeq(s, i, i) = ch
+IsIdent(k) == /\ k # "" /\ ~InStr(SubSeq(k, 1, 1), Digits)
+              /\ \A i \in 1..Len(k) : InStr(SubSeq(k, i, i), IdentChars)
+
+TextOf(x) == IF PrintableD(x) THEN [ok |-> TRUE, s |-> TextD(x, TRUE)] ELSE [ok |-> FALSE]
+
+Rend(x) ==
+  IF x.t = "map"
+  THEN [kind |-> "map",
+        f |-> [k \in {k \in DOMAIN x.v : IsIdent(k) /\ PrintableD(x.v[k])} |-> TextD(x.v[k], TRUE)]]
+  ELSE IF x = Null THEN [kind |-> "nullish"]      \* nil -> no data; typed nil -> error: both return
+  ELSE [kind |-> "error"]
+
+Case ==
+  LET x == Convert(g, o, Rd0) IN
+  [g |-> g, o |-> o, v |-> x, alts |-> SetToSeq(Acceptable(g, o) \ {x}),
+   truthy |-> IF IsIso(x) THEN TRUE ELSE TruthyD(x), text |-> TextOf(x),
+   rend |-> IF o = DefaultOpts THEN Rend(x) ELSE [kind |-> "none"]]
+
+Emit == PrintT(ToJson(Case))
 =============================================================================
